@@ -1,0 +1,20 @@
+//go:build verif
+
+package core
+
+import "github.com/jsightapi/jsight-api-go-library/directive"
+
+// Accessors used by the verification harness in /verif. They only expose
+// internal state for reading and are compiled in with the "verif" build tag.
+
+func (core *JApiCore) VerifDirectives() []*directive.Directive { return core.directives }
+
+func (core *JApiCore) VerifDirectivesWithPastes() []*directive.Directive {
+	return core.directivesWithPastes
+}
+
+func (core *JApiCore) VerifMacros() map[string]*directive.Directive { return core.macro }
+
+func VerifValidateIncludeFileName(s string) error { return validateIncludeFileName(s) }
+
+func VerifDescription(b []byte) ([]byte, error) { return description(b) }
